@@ -93,7 +93,7 @@ def judge_runs(lines, outs, only=None, tier="quick"):
 
 
 def check_sim(rep, pid, tier, seed):
-    progs, rng = M.base_programs(tier, seed, n_rand_quick=1500)
+    progs, rng = M.base_programs(tier, seed, n_rand_quick=5000, n_rand_thorough=12000)
     n_cycles = 200 if tier == "thorough" else 80
     lines = core.corpus_lines(pid)
     for p in progs:
